@@ -347,8 +347,51 @@ def _step_to_inc(f):
     return g
 
 
+def _subst_ref(n, d, repl):
+    import copy
+    if isinstance(n, list):
+        return [_subst_ref(x, d, repl) for x in n]
+    if not isinstance(n, dict):
+        return n
+    if n.get("k") == "Ref" and n.get("d") == d:
+        return copy.deepcopy(repl)
+    return {k: _subst_ref(v, d, repl) for k, v in n.items()}
+
+
+def _inline_end_locals(stmts):
+    """`const auto end = X.end();` used only in the condition of one following loop of the same block: the condition reads
+    X.end() itself (X a plain member / variable, so evaluating it per iteration is the same value for a loop that does not
+    resize X - the only use this canonical form is put to is recognising iteration over X)"""
+    out = list(stmts)
+    i = 0
+    while i < len(out):
+        s = out[i]
+        if isinstance(s, dict) and s.get("k") == "Decl" and len(s.get("vars", [])) == 1 and "d" in s["vars"][0]:
+            ini = _strip(s["vars"][0].get("init"))
+            while isinstance(ini, dict) and ini.get("k") == "Construct" and len(ini.get("args", [])) == 1:
+                ini = _strip(ini["args"][0])
+            if isinstance(ini, dict) and ini.get("k") == "Call" and ini.get("cname") in ("end", "cend") and not ini.get("args") and ini.get("obj") is not None and _pure_container(ini["obj"]):
+                d = s["vars"][0]["d"]
+                users = [j for j in range(i + 1, len(out)) if _refs_to(out[j], d)]
+                if len(users) == 1:
+                    L = out[users[0]]
+                    if isinstance(L, dict) and L.get("k") in ("For", "While") and L.get("c") is not None:
+                        in_cond = len(_refs_to(L["c"], d))
+                        total = len(_refs_to(L, d))
+                        if in_cond and in_cond == total:
+                            L2 = dict(L)
+                            L2["c"] = _subst_ref(L["c"], d, s["vars"][0]["init"])
+                            out[users[0]] = L2
+                            del out[i]
+                            continue
+        i += 1
+    return out
+
+
 def _while_to_for(stmts):
-    """S7: `T i = a; while (c(i)) { body; ++i; }` with i not used afterwards and no `continue` in body  ->  for (T i = a; c(i); ++i) body"""
+    """S7: `T i = a; while (c(i)) { body; ++i; }` with i not used afterwards and no `continue` in body  ->  for (T i = a; c(i); ++i) body;
+    likewise `T i = a; for (; c(i); ++i) body` -> for (T i = a; c(i); ++i) body"""
+    stmts = _inline_end_locals(stmts)
     out = []
     i = 0
     while i < len(stmts):
@@ -356,7 +399,7 @@ def _while_to_for(stmts):
         nxt = stmts[i + 1] if i + 1 < len(stmts) else None
         done = False
         if isinstance(s, dict) and s.get("k") == "Decl" and len(s.get("vars", [])) == 1 and "d" in s["vars"][0] and s["vars"][0].get("init") is not None \
-                and isinstance(nxt, dict) and nxt.get("k") == "For" and nxt.get("init") is None and nxt.get("inc") is None and nxt.get("c") is not None:
+                and isinstance(nxt, dict) and nxt.get("k") == "For" and nxt.get("init") is None and nxt.get("c") is not None:
             d = s["vars"][0]["d"]
             body = _stmts(nxt.get("b"))
             conts = []
@@ -364,7 +407,16 @@ def _while_to_for(stmts):
             later = []
             for r in stmts[i + 2:]:
                 later += _refs_to(r, d)
-            if body and not conts and not later and _refs_to(nxt["c"], d) and body[-1].get("k") == "Expr" and _is_step(body[-1].get("e"), d) \
+            if nxt.get("inc") is not None and not later and _refs_to(nxt["c"], d) and _is_step(nxt["inc"], d):
+                f = dict(nxt)
+                f["init"] = s
+                f.pop("was", None)
+                out.append(f)
+                i += 2
+                done = True
+            elif nxt.get("inc") is not None:
+                pass
+            elif body and not conts and not later and _refs_to(nxt["c"], d) and body[-1].get("k") == "Expr" and _is_step(body[-1].get("e"), d) \
                     and not any(_is_step(x, d) for b in body[:-1] for x in [b.get("e")] if b.get("k") == "Expr"):
                 f = dict(nxt)
                 f["init"] = s
@@ -399,7 +451,10 @@ def _iterator_loop_to_range(f, var, d, c):
     ini = _strip(var.get("init"))
     while isinstance(ini, dict) and ini.get("k") == "Construct" and len(ini.get("args", [])) == 1:
         ini = _strip(ini["args"][0])
-    if not (isinstance(ini, dict) and ini.get("k") == "Call" and ini.get("cname") in ("begin", "cbegin") and not ini.get("args") and ini.get("obj") is not None and _pure_container(ini["obj"])):
+    def const_args(c):
+        # begin() / begin(false): defaulted parameters appear as constant arguments
+        return all(isinstance(_strip(a), dict) and _strip(a).get("k") in ("Bool", "Int") for a in c.get("args", []))
+    if not (isinstance(ini, dict) and ini.get("k") == "Call" and ini.get("cname") in ("begin", "cbegin") and const_args(ini) and ini.get("obj") is not None and _pure_container(ini["obj"])):
         return None
     X = ini["obj"]
     xt = _txt(X)
@@ -415,7 +470,7 @@ def _iterator_loop_to_range(f, var, d, c):
         return None
     while isinstance(b, dict) and b.get("k") == "Construct" and len(b.get("args", [])) == 1:
         b = _strip(b["args"][0])
-    if not (isinstance(b, dict) and b.get("k") == "Call" and b.get("cname") in ("end", "cend") and not b.get("args") and b.get("obj") is not None and _txt(b["obj"]) == xt):
+    if not (isinstance(b, dict) and b.get("k") == "Call" and b.get("cname") in ("end", "cend") and const_args(b) and b.get("obj") is not None and _txt(b["obj"]) == xt):
         return None
     uses = _refs_to(f.get("b"), d)
     hits = []
